@@ -29,6 +29,7 @@ structure RCfg where
   stages : List (List Bool) := [[false]]
   writers : List (List Nat) := [[1]]
   drain : Bool := true
+  smoke : Bool := false      -- real ThreadedExecutor, real threads, no scheduler: events carry no global order
 deriving Repr
 
 /-- the harness' mutable handler: `event * 31 + (k*16 + j + 1)` (wrapping) -/
@@ -115,6 +116,7 @@ def parseCfg (args : List String) : RCfg :=
     | ["prod", v] => { c with multi := v == "multi" }
     | ["wait", v] => { c with block := v == "block" }
     | ["drain", v] => { c with drain := v == "1" }
+    | ["smoke", v] => { c with smoke := v == "1" }
     | ["stages", v] => { c with stages := (v.splitOn "/").map (fun g => g.toList.map (· == 'm')) }
     | ["writers", v] => { c with writers := (v.splitOn "|").map (fun w =>
         if w == "-" then [] else (w.splitOn ",").filterMap (·.toNat?)) }
@@ -535,10 +537,43 @@ def specC14 (s : St) (status : String) : List String := Id.run do
       out := out ++ [s!"SPECFAIL C14 all claimants published but cursor={last} highest-claimed={hi} producer={if s.cfg.multi then "multi" else "single"} lwRegressed={lwRegressed evs}"]
   return out
 
+/-- smoke runs (no global order of events): per-handler delivery and payloads only -/
+def specSmoke (s : St) (status : String) : List String := Id.run do
+  let hd := handledOf s.evs
+  let ws := writesOf s.evs
+  let wseqs := (ws.map (·.1)).mergeSort (· ≤ ·)
+  let mut out : List String := []
+  for (stage, k) in s.cfg.stages.zipIdx do
+    for (_, j) in stage.zipIdx do
+      let mine := hd.filter (fun h => h.k == k && h.j == j)
+      let seqs := mine.map (·.seq)
+      if !((seqs.zip (seqs.drop 1)).all (fun (a, b) => a + 1 == b)) then
+        out := out ++ [s!"SPECFAIL C04 smoke: handler {k}.{j} sequence order/gap/duplicate: {seqs.take 12}"]
+      if status == "ok" then
+        let expected := if s.cfg.multi then wseqs else wseqs.filter (· ≠ 0)     -- F5: sequence 0 is never delivered
+        -- the multi producer may strand a tail (F7/F8/F13): a prefix of the written sequences is the most that can be judged
+        let okDelivered := if s.cfg.multi then seqs == expected.take seqs.length else seqs == expected
+        if !okDelivered then
+          out := out ++ [s!"SPECFAIL C04 smoke: handler {k}.{j} delivered {seqs.take 8}… of published {expected.take 8}…"]
+      let mixed := stage.length ≥ 2 && stage.any id
+      for h in (if mixed then [] else mine) do
+        match ws.find? (fun w => w.1 == h.seq), expectedPayload s.cfg.stages k 0 with
+        | some w, some _ =>
+          if expectedPayload s.cfg.stages k w.2.1 != some h.payload then
+            out := out ++ [s!"SPECFAIL C04 smoke: handler {k}.{j} seq {h.seq} payload {h.payload} expected {expectedPayload s.cfg.stages k w.2.1}"]
+        | none, _ => out := out ++ [s!"SPECFAIL C04 smoke: handler {k}.{j} invoked for seq {h.seq} which was never written"]
+        | _, none => pure ()
+  return out
+
 def dedup (l : List String) : List String := l.foldl (fun acc x => if acc.contains x then acc else acc ++ [x]) []
 
 def finish (s : St) (status : String) : List String :=
-  let spec := match s.prop with
+  let spec := if s.cfg.smoke then
+      (match s.prop with
+       | "C04" => specSmoke s status
+       | "C06" => if s.cfg.multi && status != "ok" then [] else specC06 s status   -- a stranded multi-producer run may hang for real
+       | _ => [])
+    else match s.prop with
     | "C04" => specC04 s status
     | "C05" => specC05slots s ++ specC05hb s
     | "C06" => specC06 s status
@@ -562,7 +597,7 @@ def handler (prop : String) : Handler St where
     let toks := (ans.splitOn " ").filter (· ≠ "")
     let locs := (toks.drop 1).filterMap (fun t => match t.splitOn "=" with | [a, b] => some (a, b) | _ => none)
     ({ prop := prop, cfg := cfg, caseOk := toks.head? == some "ok", locs := locs,
-       model := some (mkModel cfg) },
+       model := if cfg.smoke then none else some (mkModel cfg) },
      if toks.head? == some "ok" then [] else [s!"MISMATCH harness could not start the case: {ans}"])
   onOp s op args ans :=
     if op == "run" then
